@@ -1564,7 +1564,13 @@ static bool lookup_override(parsec_mca_param_t *param,
         } else if (PARSEC_MCA_PARAM_TYPE_SIZET == param->mbp_type) {
             storage->sizetval = param->mbp_override_value.sizetval;
         } else if (PARSEC_MCA_PARAM_TYPE_STRING == param->mbp_type) {
-            storage->stringval = strdup(param->mbp_override_value.stringval);
+            /* parsec_mca_param_set_string(index, NULL) is accepted by
+               param_set_override: a NULL override must come back as NULL */
+            if (NULL != param->mbp_override_value.stringval) {
+                storage->stringval = strdup(param->mbp_override_value.stringval);
+            } else {
+                storage->stringval = NULL;
+            }
         }
 
         return true;
